@@ -565,11 +565,21 @@ def gen_commands(rng, meta: T.Dict[str, T.Any], n: int) -> T.List[T.Dict[str, T.
         else:
             op = rng.choice(['set', 'delete'])
             opts = {}
+            have = meta['project'].get('default_options') or []
+            settable = dict(DEFOPT_KEYS_SETTABLE)
+            # keys whose text occurs in an entry of ANOTHER key of this project (suffix / prefix / inside the value)
+            near = sorted({k for k in list(settable) + DEFOPT_KEYS_DELETE_ONLY for e in have
+                           if k in e and e.split('=', 1)[0] != k})
             if op == 'set':
-                for k, ch in rng.sample(DEFOPT_KEYS_SETTABLE, rng.randint(1, 2)):
-                    opts[k] = rng.choice(ch)
+                cand = [k for k in near if k in settable]
+                ks = rng.sample(cand, 1) if cand and rng.random() < 0.7 else []
+                ks += [k for k in rng.sample(sorted(settable), rng.randint(1, 2)) if k not in ks][:2 - len(ks)]
+                for k in ks:
+                    opts[k] = rng.choice(settable[k])
             else:
-                for k in rng.sample([k for k, _c in DEFOPT_KEYS_SETTABLE] + DEFOPT_KEYS_DELETE_ONLY, rng.randint(1, 2)):
+                ks = rng.sample(near, 1) if near and rng.random() < 0.7 else []
+                ks += [k for k in rng.sample(sorted(settable) + DEFOPT_KEYS_DELETE_ONLY, rng.randint(1, 2)) if k not in ks][:2 - len(ks)]
+                for k in ks:
                     opts[k] = None
             cmds.append({'type': 'default_options', 'operation': op, 'options': opts})
     return cmds
